@@ -131,6 +131,24 @@ Definition clone_pair (t : tc) : tc * tc := (t, clone t).
 Definition run_on_clone (p : tc * tc) (ops : list op) : tc * tc := (fst p, run (snd p) ops).
 Definition run_on_orig (p : tc * tc) (ops : list op) : tc * tc := (run (fst p) ops, snd p).
 
+(* local search on a different datatype / on a call (TestCaseLocalSearch._search_different_datatype,
+   ParametrizedStatementLocalSearch.search): a clone of the test case is kept; every attempt lets
+   the factory change the test case (arbitrary proposal, may insert dependency statements) and is
+   kept when the objective improved, otherwise the test case is restored from the kept clone. *)
+Fixpoint ls_attempts (saved cur : tc) (attempts : list (tc * bool)) : tc * bool :=
+  match attempts with
+  | [] => (cur, false)
+  | (proposal, improved) :: r =>
+      if improved then (proposal, true) else ls_attempts saved (clone saved) r
+  end.
+Definition ls_search (t : tc) (attempts : list (tc * bool)) : tc * bool :=
+  ls_attempts (clone t) t attempts.
+
+(* observed: (test case before, improvement found, test case after) *)
+Definition lcase := (tc * bool * tc)%type.
+Definition check_ls (c : lcase) : bool :=
+  let '(before, found, after) := c in if found then wfb after else tc_eqb before after.
+
 (* crossover: (maxlen, parent, other, p1, p2, oracle, resulting parent) *)
 Definition xcase := (nat * tc * tc * nat * nat * list var * tc)%type.
 Definition check_crossover (c : xcase) : bool :=
